@@ -43,6 +43,10 @@ var Corpus = []Op{
 	{Name: "nonnull-chain", Query: `{ me { boss { boss { boss { name } } } } }`},
 	{Name: "list-shapes", Query: `{ me { friends { rank } pals { rank } crew { rank } maybes { rank } } }`},
 	{Name: "wide", Query: `{ hello maybe me { id name nick best { id } boss { id } } users { id } items { __typename } node(id:"x") { id } }`},
+	{Name: "merge-across-type-conditions", Query: `{ me { posts { related { owner { id name nick } ... on User { owner { plain } } ... on Post { owner { plainReq } } } } } }`},
+	{Name: "merge-across-type-conditions-union", Query: `{ items { ... on Node { owner { id name nick } } ... on User { owner { plain } } ... on Post { owner { t: plainReq } } } }`},
+	{Name: "merge-across-type-conditions-5", Query: `{ search { __typename ... on Node { owner { a: id b: name c: nick d: plain e: id } } ... on User { owner { rank } } ... on Post { owner { score } } } }`},
+	{Name: "merge-across-type-conditions-list", Query: `{ users { friends { id } } node(id:"1") { owner { id name nick } ... on User { owner { plain } } ... on Post { owner { plainReq } } } items { ... on Entity { id } } }`},
 	{Name: "multi-op", Query: `query A { hello } query B { maybe me { name } }`, OpName: "B"},
 	{Name: "mutation-serial", Query: `mutation { a: inc(by:1) b: setName(id:"1", name:"x") { id name best { name } } c: inc(by:2) }`},
 	{Name: "mutation-boom", Query: `mutation { inc(by:1) boom { id name friends { name } } }`},
